@@ -24,6 +24,9 @@ import (
 type Program struct {
 	ParseErr *ErrSpec    `json:"perr,omitempty"`
 	Stmts    []*StmtProg `json:"stmts,omitempty"`
+	// Partial: a failing parser hands back the statements it had parsed so far
+	// together with its error (an error means the query was rejected)
+	Partial bool `json:"partial,omitempty"`
 }
 
 // StmtProg is one prepared statement: declared columns and parameter types,
@@ -482,11 +485,12 @@ func (rt *Runtime) parseFn(ctx context.Context, query string) (wire.PreparedStat
 	rt.K.Yield(c.task, "cb.parse")
 	c.rec("parse", query)
 	c.retain("query", query)
+	c.retainMap("client parameters as the first callback of the session received them", wire.ClientParameters(ctx))
 	c.checkRetained("parse")
 	rt.inspectCtx(c, ctx, "parse")
 	c.cmdCtx = ctx
 	prog := rt.programFor(query)
-	if prog.ParseErr != nil {
+	if prog.ParseErr != nil && !(prog.Partial && len(prog.Stmts) > 0) {
 		c.rec("parse-ret", "err")
 		return nil, prog.ParseErr.Build()
 	}
@@ -511,6 +515,10 @@ func (rt *Runtime) parseFn(ctx context.Context, query string) (wire.PreparedStat
 		out = append(out, wire.NewStatement(func(ctx context.Context, w wire.DataWriter, params []wire.Parameter) error {
 			return rt.runStmt(ctx, key, idx, sp, w, params)
 		}, opts...))
+	}
+	if prog.ParseErr != nil {
+		c.rec("parse-ret", "err")
+		return out, prog.ParseErr.Build()
 	}
 	c.rec("parse-ret", fmt.Sprintf("%d", len(out)))
 	return out, nil
